@@ -174,6 +174,17 @@ class Ev:
             return None
         if k in ("PRef", "PDeref", "PBox"):
             return self.bind(pat["pat"], v)
+        if k in ("PExpr", "PPath", "PStruct", "PTupleStruct") and res and "::" in res:
+            # a unit variant / constant compared with an atom (`match x.inst.get() { CsrType::Csrrw => .. }`)
+            if isinstance(v, str) and not v.startswith("?"):
+                return {} if short(res) == v else None
+            raise Unx(f"match of an unknown value against {short(res)}")
+        if k == "POr":
+            for p_ in pat["pats"]:
+                b = self.bind(p_, v)
+                if b is not None:
+                    return b
+            return None
         raise Unx(f"pattern {k}")
 
     # ---- booleans
